@@ -21,3 +21,10 @@ CLAIMED.update({"C14": "DESIGN 4/C14"})
 CLAIMED.update({"C15": "DESIGN 4/C15"})
 CLAIMED.update({"C13": "DESIGN 4/C13"})
 CLAIMED.update({"C08": "DESIGN 4/C08"})
+_BASE = "symbolic execution of the real Python code over a symbolic numpy layer + SMT (z3 QF_NRA / linear abstraction) per path, counterexample replay"
+EXTRA.update({
+    "C09": {"technique": _BASE + "; 3-D point-polytope and plane-plane distances only by supplementary concrete lattice evaluation against a numpy oracle (labelled in the evidence, not a solver verdict)"},
+    "C13": {"technique": _BASE + "; constructors with lattice data and one free real parameter where the fully symbolic query is undecided (from_tangent, from_crossratio); cones / cylinders and from_foci only by supplementary concrete lattice sweeps (labelled, not a solver verdict)"},
+    "C14": {"technique": _BASE + "; 3-D quadric collections and duals of every quadric class by supplementary concrete cases (labelled, not a solver verdict)"},
+    "C15": {"technique": _BASE + "; sign patterns of line / plane pairs additionally enumerated concretely, conic x conic only by supplementary concrete pencils (labelled, not a solver verdict)"},
+})
